@@ -43,7 +43,7 @@ MANIFEST = {
         engine="BlockQuery",
         text="Exhaustive TLC exploration of specs/BlockQuery (GetBlock as HeaderLookup / CacheLookup / Submit / one "
              "Resp step per response / Verdict+cache put / Return, up to 3 consecutive calls) over response streams of "
-             "unbounded length from up to 4 peers over {requested block intact, other block, tx mutated, tx added, tx "
+             "unbounded length from up to 4 peers over {requested block intact, other block, sibling header (the requested block with exactly one header field - version, prev block, merkle root, timestamp, bits or nonce - changed and PoW still valid), tx mutated, tx added, tx "
              "removed, witness stripped, witness commitment forged, duplicate of the previous message, non-block}. "
              "EVERY transition is replayed against the real ChainService.GetBlock and its response closure (real block "
              "header store, REAL blocks with witness commitments and P2WPKH/P2PKH transactions, mutations such as the "
@@ -230,7 +230,7 @@ def free_scenarios(module, consts, n, rng, silent_share):
                 for p in order:
                     script = []
                     for j in range(rng.randint(0, 3)):
-                        ks = ["intact", "other", "mutated", "added", "removed", "stripped", "forged", "nonblock"]
+                        ks = ["intact", "other", "sibling", "mutated", "added", "removed", "stripped", "forged", "nonblock"]
                         if j > 0:       # the dispatcher decides which peer is asked first
                             ks.append("dup")
                         k = rng.choice(ks)
